@@ -137,10 +137,23 @@ def _loop (ctx, repo, f, L):
   for n, c in L.decode:
     iv = g.interval(lambda x: x in [a[0] for a in L.advance], start=n, stop=L.head)
     good = iv == (1, 1)
+    if not good and iv is not None:
+      # path-sensitive recount: the markers an inlined helper leaves behind (`ok = False ... if not ok: break`) correlate branches
+      advn = [a[0] for a in L.advance]
+      ps_ = q.paths_under(repo, mod, g, q.Env(), n, [L.head], f.cls, limit=300, track_start=True)
+      if ps_ and len(ps_) < 300:
+        cnts = set(sum(1 for x_ in p_ if x_ in advn) for p_, e_ in ps_)
+        if cnts == {1}: good = True; iv = (1, 1)
     ctx.ob('R-EFFECT', f, "after a decode the loop continues only with the cursor advanced once", good, "advance count on paths back to the loop head: %s" % (iv,),
            (mod, c), 'D4') if iv is not None else ctx.undecided('R-EFFECT', f, "advance per iteration", "loop head not reachable from decode", (mod, c), 'D4')
     # ... also when the delivery raises and a handler inside the loop carries on: the message that was handed over is not handed over again
     ivx = g.interval(lambda x: x in [a[0] for a in L.advance], start=n, stop=L.head, exc=True)
+    if iv == (1, 1) and ivx is not None and ivx[0] < 1:
+      advn = [a[0] for a in L.advance]
+      ps_ = q.paths_under(repo, mod, g, q.Env(), n, [L.head], f.cls, limit=400, track_start=True, exc=True)
+      if ps_ and len(ps_) < 400:
+        cnts = [sum(1 for x_ in p_ if x_ in advn) for p_, e_ in ps_]
+        if min(cnts) >= 1: ivx = (min(cnts), max(cnts))
     if iv == (1, 1) and ivx is not None:
       ctx.ob('R-EFFECT', f, "the cursor has advanced also on the paths through an exception handler back to the loop head", ivx[0] >= 1,
              "advance count including handler paths: %s" % (ivx,) if ivx[0] >= 1 else
